@@ -3,7 +3,11 @@
    untouched, for ALL initial heaps and ALL argument tuples (any aliasing between arguments included).
    Round 5 (end of file): the remaining documented in-place parameters, sequences of calls, estimator classes,
    the interruption points used by the correspondence, monotonicity of the static check in the protection, caught
-   exceptions (try / except), and CPTensor.normalize(inplace=False) after fix 9ada0b3 (old rule as a labelled Example). *)
+   exceptions (try / except), and CPTensor.normalize(inplace=False) after fix 9ada0b3 (old rule as a labelled Example).
+   Round 7 (end of file; Model/EffectsR7.v): non_negative_tucker (in-place multiplicative updates on the tl.abs copies of a user init) and
+   monotonicity_prox / unimodality_prox (index_update into a copy taken before the flip / reshape views), generic in every size, with the
+   seeded-defect FAMILIES `by reference instead of tl.abs` / `a view instead of a copy` and their visibility conditions; try statements inside
+   callees and loops (xcmd, any oracle) with the instance non_negative_tucker_hals(algorithm="active_set"); the Tucker_NN estimator class. *)
 From Coq Require Import List Arith ZArith Bool.
 From TLV Require Import Model.Effects Proofs.EffectsProofs Proofs.EffectsProofsSk Proofs.EffectsProofsGen Proofs.EffectsProofsPaths Proofs.EffectsProofsReach Proofs.EffectsProofsR5 Proofs.EffectsProofsMono Proofs.EffectsProofsTry Model.EffectsR7 Proofs.EffectsProofsR7 Proofs.EffectsProofsR7Try Corr.C15.
 Import ListNotations.
